@@ -2,7 +2,7 @@
 (render.rs TerminalRenderer::{new,clear,frame}, terminal.rs Terminal::run_render)."""
 import json
 import re
-from ..mir import call_matches, callee_name, op_local, op_const_int, place_str
+from ..mir import call_matches, callee_name, callee_names, op_local, op_const_int, place_str
 from ..flow import resolve_place, arg_place, origins, value_variants, ok_return_blocks, err_return_blocks, feasible_reach, expr, place_expr, promoted_aggs
 
 CLAIM = {
@@ -108,6 +108,87 @@ def fills(body, surf_regex):
     return out
 
 
+_DEFAULT_FN = r"(^|[ :<])(std|core)::default::Default(>)?::default$"
+
+
+def _is_default_value(body, operand):
+    """every reaching origin of the operand is a call of Default::default (of whatever type the slot has)"""
+    og = origins(body, operand)
+    return bool(og) and all(o[0] == "call" and re.search(_DEFAULT_FN, o[2] or "") for o in og)
+
+
+_WDW = {}
+
+
+def writes_default_everywhere(prog, path, depth=0):
+    """does the SurfaceMut method `path` (e.g. SurfaceMut::clear) store Default::default() into every slot of its receiver on every
+    return path?  Decided on its body: (a) it hands the receiver to fill(.., <default>) / to another such method on every way out, or
+    (b) all its element stores write a Default::default() result at shape.offset(Position::new(row, col)) and the only ranges it walks
+    are 0..shape.height and 0..shape.width of the receiver's own shape (that the nested walk covers the window is C07 U5-LOOPS)."""
+    key = (id(prog), path)
+    if key in _WDW:
+        return _WDW[key]
+    _WDW[key] = False
+    b0 = prog.body(path)
+    if b0 is None or depth > 2:
+        return False
+    b = prog.inlined(path) or b0
+    cfg = b.cfg()
+    rets = list(cfg.returns)
+    ok = False
+    # (a) delegation
+    sites = []
+    for bb, t in b.calls():
+        if b.blocks[bb]["cleanup"] or not t["args"] or arg_place(b, t, 0) not in ("(*_1)", "_1"):
+            continue
+        if call_matches(t, r"^surface::SurfaceMut::fill$") and len(t["args"]) > 1 and _is_default_value(b, t["args"][1]):
+            sites.append(bb)
+        else:
+            for n in callee_names(t):
+                if n != path and re.match(r"^surface::SurfaceMut::\w+$", n) and not n.endswith("::fill") and len(t["args"]) == 1 and writes_default_everywhere(prog, n, depth + 1):
+                    sites.append(bb)
+                    break
+    if sites and rets and cfg.must_pass(sites, exits=rets)[0]:
+        ok = True
+    # (b) the row/column walk itself
+    if not ok:
+        stores = [(i, s_) for i, si, s_ in b.assigns() if not b.blocks[i]["cleanup"] and any(e["k"] in ("index", "cindex", "subslice") for e in s_["place"]["p"])]
+        good = bool(stores)
+        for i, s_ in stores:
+            ix = [e for e in s_["place"]["p"] if e["k"] == "index"]
+            val = s_["rv"]["a"] if s_["rv"]["k"] == "use" else None
+            it = expr(b, {"k": "copy", "place": {"l": ix[0]["l"], "p": []}}) if len(ix) == 1 else ""
+            good = good and val is not None and _is_default_value(b, val) and re.match(r"^Shape::offset\(.*shape\(arg1\), Position::new\(.*range::next.*range::next.*\)\)$", it) is not None
+        ends = set()
+        for i, si, s_ in b.assigns():
+            rv = s_["rv"]
+            if rv["k"] == "agg" and rv.get("ak") == "adt" and (rv.get("adt") or "").endswith("Range") and not b.blocks[i]["cleanup"]:
+                f = rv["fields"]
+                e_ = expr(b, f[1]) if len(f) == 2 else ""
+                m = re.match(r"^.*shape\(arg1\)\.(height|width)$", e_)
+                if len(f) != 2 or expr(b, f[0]) != "0" or not m:
+                    good = False
+                else:
+                    ends.add(m.group(1))
+        # every iteration of the innermost walk stores: no way round the loop avoids all stores
+        if good:
+            loops = cfg.loops()
+            sb = {i for i, s_ in stores}
+            inner = sorted((len(body_), h) for h, body_ in loops.items() if sb <= body_)
+            if not inner:
+                good = False
+            else:
+                h = inner[0][1]
+                lb = loops[h]
+                outside = set(range(len(b.blocks))) - lb
+                for st_ in cfg.succ[h]:
+                    if st_ in lb and not cfg.must_pass(sb, exits=[h], start=st_, removed=outside)[0]:
+                        good = False
+        ok = good and ends == {"height", "width"}
+    _WDW[key] = ok
+    return ok
+
+
 def view_of(body, f):
     """if the receiver of a fill is the result of view_mut(X, ..): returns X's place"""
     l = op_local(f["t"]["args"][0])
@@ -161,7 +242,14 @@ def run(ctx):
     oks = ok_return_blocks(clear)
     fl = fills(clear, None)
     m_d = [f["bb"] for f in fl if f["recv"] == "(*_1).marks" and DAMAGED in f["vals"]]
-    b_d = [f["bb"] for f in fl if f["recv"] == "(*_1).back" and any(o[0] == "call" and o[2] == "<render::Cell as std::default::Default>::default" for o in f["orig"])]
+    # the back buffer is reset by storing the default cell everywhere: fill(back, Cell::default()) or a SurfaceMut method that is shown
+    # to write Default::default() into every slot (SurfaceMut::clear; decided on that method's body, not by its name)
+    b_d = [f["bb"] for f in fl if f["recv"] == "(*_1).back" and f["name"] == "fill" and bool(f["orig"])
+           and all(o[0] == "call" and o[2] == "<render::Cell as std::default::Default>::default" for o in f["orig"])]
+    for bb, t in clear.calls():
+        if len(t["args"]) == 1 and not clear.blocks[bb]["cleanup"] and arg_place(clear, t, 0) == "(*_1).back" and \
+                any(re.match(r"^surface::SurfaceMut::\w+$", n) and writes_default_everywhere(prog, n) for n in callee_names(t)):
+            b_d.append(bb)
     for nm, sites in (("marks-damaged", m_d), ("back-reset", b_d)):
         ok, wit = cfg.must_pass(sites, exits=oks) if sites else (False, None)
         ctx.instance("R1-CLEAR", {"what": nm, "blocks": sites, "ok_exits": sorted(oks)})
